@@ -300,11 +300,11 @@ def run(chk):
     quick = chk.tier == 'quick'
     V = Verdicts(chk)
     phase_prims(chk, V)
-    phase_trees(chk, V, 700 if quick else 14000)
-    phase_front(chk, V, 1500 if quick else 30000)
+    phase_trees(chk, V, 2000 if quick else 30000)
+    phase_front(chk, V, 3000 if quick else 60000)
     import c05_sites
-    c05_sites.phase_sites_ir(chk, V, 120 if quick else 2400)
-    c05_sites.phase_sites_src(chk, V, 60 if quick else 1200)
+    c05_sites.phase_sites_ir(chk, V, 200 if quick else 3000)
+    c05_sites.phase_sites_src(chk, V, 100 if quick else 1500)
     V.finish('Model.Lang.*.{ts,kt,sc,sw,go,py}_texp vs Language::format_type; Model.Types.parse_ty vs RustType::try_from; '
              'Model decls_ir/decls_src vs generate_ir/generate')
 
